@@ -15,7 +15,7 @@ SPEC = {
 }
 
 CLAIM = {
-    "text": "(Part ROUNDS, package filtering: refresh rounds of the update timer's kind - block and allow lists together, due by age - in which the servers of one group answer 502 or drop the connection while lists of the other group change, both or neither; after each round CheckHost must decide every probe as the lists stored in the data directory do.) Thousands of generated (rule set, configuration, query) cases are sent over real UDP/TCP sockets to a real dnsforward.Server (real filtering engine fed by list files, allow list and custom rules; real client registry; all five blocking modes; protection on/off/paused/pause-over; global and per-client filtering; blocked services with always-active and always-paused schedules). A logging in-memory upstream is the only resolver, so forwarding is observed directly: blocked queries must cause no upstream call, carry no upstream marker and be the mode's synthetic answer; forwarded ones must cause exactly one call with the same question and deliver the upstream records and question intact. Expected verdicts come from an independent reference model of allow/exception/important precedence and gating. A second part drives the filter configuration through the admin-API handlers (lists added/enabled/disabled/removed, refreshes with changed content and with transfers that break in the body, custom rules, filtering on/off, persistent clients moved between identifiers) and requires, after every accepted operation, that decisions observed over real DNS follow the configuration in force within a bounded number of polls.",
+    "text": "(Part ROUNDS, package filtering: refresh rounds of the update timer's kind - block and allow lists together, due by age - in which the servers of one group answer 502 or drop the connection while lists of the other group change, both or neither; after each round CheckHost must decide every probe as the lists stored in the data directory do.) Thousands of generated (rule set, configuration, query) cases are sent over real UDP/TCP sockets to a real dnsforward.Server (real filtering engine fed by list files, allow list and custom rules; real client registry; all five blocking modes; protection on/off/paused/pause-over; global and per-client filtering; blocked services with always-active and always-paused schedules). A logging in-memory upstream is the only resolver, so forwarding is observed directly: blocked queries must cause no upstream call, carry no upstream marker and be the mode's synthetic answer; forwarded ones must cause exactly one call with the same question and deliver the upstream records and question intact. Expected verdicts come from an independent reference model of allow/exception/important precedence and gating. A second part drives the filter configuration through the admin-API handlers (lists added/enabled/disabled/removed, refreshes with changed content and with transfers that break in the body, custom rules, filtering on/off, persistent clients moved between identifiers) and requires, after every accepted operation, that decisions observed over real DNS follow the configuration in force within a bounded number of polls. Blocked-service schedules are also written in a zone where it is another weekday, clients are also identified by nested networks, and blocked HTTPS questions must carry the mode's rcode.",
     "note": "Trusted: urlfilter's matching of one rule against one request; miekg/dns client. Unspecified zones (counted, not asserted): rcode of blocked non-address queries, blocked services while filtering is off, IPv4-mapped host rules. Race detector is on as a by-product.",
     "technique": "runtime monitor: reference-model oracle + upstream call log over real sockets (go test -race)",
 }
